@@ -919,7 +919,11 @@ MANIFEST = {
                    "_get_cvar_weights_from_percentile / _cvar_objectives / _cvar_constraint / get_realization_weights), for all ensemble sizes, "
                    "failure masks, value vectors and percentiles in (0,1]; the model is tied to the code on every run by an in-Coq correspondence "
                    "(exhaustive small-n enumeration plus sampled and ulp-adversarial percentiles, function level and through EnsembleEvaluator.calculate)."),
-    "level_note": "see Props/C04.v; filled in by the final MANIFEST text below",
+    "level_note": ("Proved (Props/C04.v, all 'Closed under the global context'): C04_staircase, C04_exact_zeros, C04_failed_zero, C04_fraction_bounds, "
+                   "C04_nonneg, C04_sum_p, C04_tail_mean, C04_worst_objective, C04_worst_constraint, C04_worst_direction, "
+                   "C04_empty_is_too_few_objective/_constraint.  Trusted / modelled, not verified: np.argsort (any order consistent with the keys; "
+                   "ties accepted in the implementation's favour), float rounding of int(p*n) (for p*n within 1e-12(1+n) of an integer the "
+                   "implementation is judged by the staircase predicate only), pydantic option validation; Coq kernel + VM; the Python drivers."),
     "technique": "Coq proof (induction over lists, sorting facts, Q arithmetic) on an executable Gallina model + in-Coq differential correspondence with the real filter code",
     "design_ref": "DESIGN.md section 4, C04",
 }
